@@ -78,8 +78,21 @@ pub fn run(args: &Args, rep: &mut Report) {
         if i % 4 >= 2 {
             tags.sort();
         }
+        // every third set: each sample name is a string prefix of the next one ("S#1", "S#10",
+        // "S#100"; "v1", "v10", ...), in one block of consecutive samples
+        let nested = i % 3 == 1;
+        if nested {
+            rep.count("sets_with_sample_names_that_are_prefixes_of_each_other", 1);
+        }
         for (j, s) in set.samples.iter_mut().enumerate() {
-            let sn = if pansn { format!("V{}#{}", tags[j], j % 2) } else { format!("v{}", tags[j]) };
+            let sn = if nested {
+                let digits = ["1", "10", "100", "1000", "2", "20", "200"][j % 7];
+                if pansn { format!("S#{}", digits) } else { format!("v{}", digits) }
+            } else if pansn {
+                format!("V{}#{}", tags[j], j % 2)
+            } else {
+                format!("v{}", tags[j])
+            };
             for (cj, c) in s.contigs.iter_mut().enumerate() {
                 let desc = c.0.split_once(' ').map(|(_, d)| format!(" {}", d)).unwrap_or_default();
                 c.0 = if pansn { format!("{}#c{}{}", sn, cj, desc) } else { format!("c{}{}", cj, desc) };
